@@ -65,6 +65,26 @@ func genProgFields(r *Rng, cfg p1Cfg) []PStmt {
 			nd++
 		}
 	}
+	if r.Chance(1, 2) {
+		// a context tree: a chain, then siblings of its last link, then one With per
+		// sibling - created only after all siblings exist
+		var parent *int
+		for depth := 0; depth < 2+r.Intn(3); depth++ {
+			p = append(p, PStmt{T: "ctx", Parent: parent, Opts: forceOpts(r, cfg, pool, 1+r.Intn(2))})
+			parent = ip(nc)
+			nc++
+		}
+		first := nc
+		for sib := 0; sib < 2+r.Intn(2); sib++ {
+			p = append(p, PStmt{T: "ctx", Parent: parent, Opts: forceOpts(r, cfg, pool, 1)})
+			nc++
+		}
+		for c := first; c < nc; c++ {
+			p = append(p, PStmt{T: "with", D: r.Intn(nd), Ctx: ip(c), Opts: genOpts(r, cfg, pool, 1)})
+			nd++
+			p = append(p, PStmt{T: "new", F: nd - 1, Msg: "m"})
+		}
+	}
 	rest := genProg(r, cfg)
 	// shift nothing: the random tail refers to pools from index 0, which exist
 	return append(p, rest...)
@@ -167,4 +187,14 @@ func runC03(p []PStmt) Case {
 	}
 	return Case{Coq: strings.ReplaceAll(coq, "\n", " "), Desc: mustJSON(p1Desc{Prog: p}), Size: len(p),
 		Nontrivial: overwrite || layered, Class: fmt.Sprintf("stmts=%d", len(p)/4*4), Summary: progSummary(p), Observed: o}
+}
+
+// forceOpts returns exactly n field options.
+func forceOpts(r *Rng, cfg p1Cfg, pool []gval, n int) []POpt {
+	var out []POpt
+	for len(out) < n {
+		k := Pick(r, cfg.Keys)
+		out = append(out, POpt{T: "field", Key: k, Val: Pick(r, valuesFor(keyPool[k], pool))})
+	}
+	return out
 }
